@@ -67,6 +67,12 @@ def tree_spec(big=0):
         "z.zip": ("zip", _zip_bytes(), None),
         "page.html": ("html", b"<html><head><title>My Page</title></head><body>x</body></html>\n", None),
         "t.txt.gz": ("gz", gzip.compress(b"compressed text\n", mtime=0), None),
+        # compressed documents whose DEcompressed sizes straddle the copy-buffer (64 KiB) and copy-buffer + pipe
+        # (128 KiB) boundaries: what a relaying CompressedFileHandler holds in flight when a client write fails
+        "gz/k60.txt.gz": ("gz", gzip.compress(b"0123456789abcde\n" * 3840, mtime=0), None),
+        "gz/k70.txt.gz": ("gz", gzip.compress(b"0123456789abcde\n" * 4480, mtime=0), None),
+        "gz/k130.txt.gz": ("gz", gzip.compress(b"0123456789abcde\n" * 8320, mtime=0), None),
+        "gz/k200.txt.gz": ("gz", gzip.compress(b"0123456789abcde\n" * 12800, mtime=0), None),
         "run.sh": ("exe", b"#!/bin/sh\necho script output\n", 0o755),
         "p.pyg": ("pyg", PYG, 0o755),
     }
@@ -75,7 +81,7 @@ def tree_spec(big=0):
 
 # selector -> node kind, as handed to the TLA+ models (B1: the model is told the tree that was built)
 def tree_kinds(handlers):
-    k = {"/": "dir", "/d": "dir", "/d/sub": "dir", "/gm": "gmapdir", "/umn": "dir", "/md": "maildir",
+    k = {"/": "dir", "/gz": "dir", "/d": "dir", "/d/sub": "dir", "/gm": "gmapdir", "/umn": "dir", "/md": "maildir",
          "/md/new": "dir", "/md/cur": "dir", "/md/tmp": "dir"}
     for p, (kind, _c, _m) in tree_spec().items():
         k["/" + p] = kind
@@ -179,7 +185,7 @@ class FdWriter(io.RawIOBase):
 
 
 class Obs:
-    __slots__ = ("out", "log", "escaped", "writes", "fail_marks", "ops", "fds_leaked", "reads_left")
+    __slots__ = ("out", "log", "escaped", "writes", "fail_marks", "ops", "fds_leaked", "reads_left", "children_left")
 
 
 def open_fds():
@@ -205,6 +211,44 @@ def open_fds():
     return out
 
 
+def child_pids():
+    """Child processes of this process that exist right now, running or zombie (pid -> 'state comm')."""
+    me = str(os.getpid())
+    out = {}
+    try:
+        tids = envsub.REAL["listdir"]("/proc/self/task")
+    except OSError:
+        tids = []
+    pids = set()
+    for t in tids:
+        try:
+            fd = os.open("/proc/self/task/%s/children" % t, os.O_RDONLY)
+            try:
+                pids.update(os.read(fd, 65536).split())
+            finally:
+                os.close(fd)
+        except OSError:
+            pids = None
+            break
+    if pids is None:                       # no CONFIG_PROC_CHILDREN: scan the process table
+        pids = [p.encode() for p in envsub.REAL["listdir"]("/proc") if p.isdigit()]
+    for p in pids:
+        p = p.decode()
+        try:
+            fd = os.open("/proc/%s/stat" % p, os.O_RDONLY)
+            try:
+                st = os.read(fd, 4096).decode("latin-1")
+            finally:
+                os.close(fd)
+        except OSError:
+            continue
+        comm = st[st.find("(") + 1:st.rfind(")")]
+        rest = st[st.rfind(")") + 2:].split()
+        if len(rest) > 1 and rest[1] == me:
+            out[int(p)] = "%s %s" % (rest[0], comm)
+    return out
+
+
 def fd_targets(fds):
     out = []
     for f in sorted(fds, key=int):
@@ -226,6 +270,7 @@ def serve(w: "W.World", data: bytes, tls=False, fail_at=None, fail_exc=None, cou
     if count_fds:
         gc.collect()
         before = open_fds()
+        kids_before = child_pids()
     wfile = FdWriter(fail_at, fail_exc, on_fail=lambda n: marks.append((n, len(w.logbuf))))
     req = (W.MockSSLRequest if tls else W.MockRequest)(rfile, wfile)
     e0 = (envsub.ENV.stat_calls, envsub.ENV.listdir_calls, envsub.ENV.open_calls)
@@ -258,10 +303,19 @@ def serve(w: "W.World", data: bytes, tls=False, fail_at=None, fail_exc=None, cou
              + wfile.writes + 1)
     o.reads_left = len(data) - rfile.tell() if not rfile.closed else 0
     o.fds_leaked = []
+    o.children_left = []
     if count_fds:
         del h, req, rfile
         gc.collect()
         o.fds_leaked = fd_targets(open_fds() - before)
+        kids = child_pids()
+        o.children_left = ["%d %s" % (p, kids[p]) for p in sorted(kids) if p not in kids_before]
+        for p in kids:                      # observed; do not let stuck children pile up in the worker
+            if p not in kids_before:
+                try:
+                    os.kill(p, 9)
+                except OSError:
+                    pass
     return o
 
 
@@ -414,8 +468,15 @@ TAILS = {
 }
 
 
+# stand-ins of spec/Server.tla for characters TLA+ sources cannot spell -> the bytes on the wire
+STANDINS = {NUL_PLACEHOLDER: b"\x00", "^": "\u00b2".encode(), "`": "\u0663".encode(), "@": "\u00e9".encode()}
+
+
 def concretise(line: str, tail: str) -> bytes:
-    return line.replace(NUL_PLACEHOLDER, "\x00").encode("latin-1") + TAILS[tail]
+    b = line.encode("latin-1")
+    for ch, real in STANDINS.items():
+        b = b.replace(ch.encode(), real)
+    return b + TAILS[tail]
 
 
 def tla_str(s: str) -> str:
